@@ -245,3 +245,33 @@ func constInt64(v constant.Value) (int64, bool) {
 	// values above MaxInt64 (uint64 max): saturate
 	return 1<<63 - 1, true
 }
+
+// keccakChain peels hash applications off v: Keccak256Hash(x) and Keccak256(x) of a single
+// argument each count one level; Hash.Bytes(), BytesToHash(), conversions and single-definition
+// locals are transparent. Returns the number of levels and the innermost value.
+func keccakChain(v ssa.Value) (int, ssa.Value) {
+	depth := 0
+	for k := 0; k < 12; k++ {
+		v = resolveSpill(strip(v))
+		cl, ok := v.(*ssa.Call)
+		if !ok {
+			return depth, v
+		}
+		switch facts.CalleeName(&cl.Call) {
+		case "(geth/common.Hash).Bytes":
+			v = cl.Call.Args[0]
+		case "geth/common.BytesToHash":
+			v = cl.Call.Args[0]
+		case "geth/crypto.Keccak256Hash", "geth/crypto.Keccak256":
+			el := singleVararg(cl.Call.Args[0])
+			if el == nil {
+				return depth, v
+			}
+			depth++
+			v = el
+		default:
+			return depth, v
+		}
+	}
+	return depth, v
+}
